@@ -135,6 +135,26 @@ def main():
                     chk.violation("uniform profiles, levels=%s: the mean concentration of the numerical mode at node %d is %.12g, the closed form's linear mean profile gives %.12g"
                                   % (lv, lv[k], mn, ma), {"kind": "numeric_vs_analytic_mean", "config": c, "slot": k}, klass={"check": "numeric_vs_analytic_mean", "node0": lv[k] == 0})
                     break
+    # the closed form level by level: with several requested levels (equidistant in index or not, ascending or not) on a
+    # STRETCHED vertical grid, every slot of the analytic mode equals the analytic solve for that level alone
+    for fp in (False, True):
+        for lv in ([1, 4, 7, 10], [11, 7, 3], [0, 5, 10, 15], [2, 3, 4, 5, 6], [14, 2, 9]):
+            c = {"nx": 12, "ny": 10, "ax": 2, "ay": 3, "halo": 6, "mx": 8, "my": 6, "xm": 8 if fp else 0, "ym": 9 if fp else 0, "fp": fp, "an": True, "nz": 16, "lv": lv}
+            for kind in ("const", "const_aniso"):
+                kw = rs.solver_args(c, kind, "double")
+                if kind == "const_aniso":
+                    kw["z"] = 0.3 * 1.35 ** np.arange(16)            # a stretched grid for the hand-built constants as well
+                q = rs.source(c, "smooth", rng)
+                _, pa, fa = rs.solve3(q, kw, srf_bg_conc=0.4)
+                for k in range(len(lv)):
+                    nslot += 1
+                    _, p1, f1 = rs.solve3(q, kw, srf_bg_conc=0.4, levels=[lv[k]])
+                    sc_ = max(float(np.max(np.abs(f1))), float(np.max(np.abs(p1))), 1e-300)
+                    if float(np.max(np.abs(fa[k] - f1[0]))) > 1e-12 * sc_ or float(np.max(np.abs(pa[k] - p1[0]))) > 1e-12 * sc_:
+                        chk.violation("analytic mode, levels=%s on a stretched grid: slot %d (node %d) differs from the closed form for that level alone by %.3e relative"
+                                      % (lv, k, lv[k], max(float(np.max(np.abs(fa[k] - f1[0]))), float(np.max(np.abs(pa[k] - p1[0])))) / sc_),
+                                      {"kind": "analytic_levels", "config": c, "slot": k, "profiles": kind}, klass={"check": "analytic_levels"})
+                        break
     chk.extra["numeric_vs_analytic_slots"] = nslot
     chk.traces += len(r.emitted)
     chk.extra["probe_points"] = len(r.emitted)
